@@ -11,7 +11,7 @@ var Properties = map[string]PropertyDef{
 	"C07": {Cases: C07Cases, Config: func(tier string) Config {
 		c := Config{
 			Functions: []string{"gennaro rounds", "lindell22 signing rounds", "redistribute/hjky rounds", "algebrautils.RandomNonIdentity / Field.Random call sites of every round (observed through the reader monitor)", "kw.Scheme.DealAndRevealDealerFunc (columnFactory.Random)"},
-			Bounds:    map[string]any{"failing source": "Gennaro, Canetti, Lindell22 signing, refresh (3 parties, resp. a 2-party quorum): for every consumption index k < 24 of one party's source (thorough: of every party's), the k-th read fails once: the party reports an error from its constructor or from the round in which the read happens, and produces no result", "protocols": "Gennaro DKG, Lindell22 signing, redistribute (refresh)", "clauses": "reader discipline on every symbolic path; dependence of PK / joint nonce point / shares on each party's stream (solver witness); nonce-commitment injectivity and independence from message and other parties (validity)"},
+			Bounds:    map[string]any{"failing source (dkls23)": "DKLs23 SoftSpoken variant (thorough: also bbot): every RAW byte read of one cosigner's source (choice bits, commitment witnesses, …) fails once — same obligations", "failing source": "Gennaro, Canetti, Lindell22 signing, refresh (3 parties, resp. a 2-party quorum): for every consumption index k < 24 of one party's source (thorough: of every party's), the k-th read fails once: the party reports an error from its constructor or from the round in which the read happens, and produces no result", "protocols": "Gennaro DKG, Lindell22 signing, redistribute (refresh)", "clauses": "reader discipline on every symbolic path; dependence of PK / joint nonce point / shares on each party's stream (solver witness); nonce-commitment injectivity and independence from message and other parties (validity)"},
 			Assumes:   []string{"a party's stream = the io.Reader passed to its constructor; streams of distinct parties are independent symbolic variables", "byte-level randomness (commitment witnesses, session contributions) is visible only as 'read from the right reader'"},
 			Outside:   []string{"session setup, OT, RVOLE, DKLs23, Lindell17, BLS", "randomness obtained without going through the supplied io.Reader and without sampling a field/group element (invisible to the monitor)", "sequences of sessions on the same key material"},
 		}
@@ -38,7 +38,7 @@ var Properties = map[string]PropertyDef{
 	"C01": {Cases: C01Cases, Config: func(tier string) Config {
 		c := Config{
 			Functions: []string{"dkls23 signing_bbot.NewCosigner / Cosigner.Round1–Round4", "dkls23 keygen.NewShard", "rvole/bbot Alice/Bob rounds", "ecbbot rounds", "ecdsa.NewSuite / DigestToScalar", "signing.NewCosigner", "Cosigner.Round1/Round2/Round3/ComputePartialSignature/computeEffectivePartialPublicKeys", "signing.NewAggregator/NewCosigningAggregator", "Aggregator.Aggregate", "hjky.Participant.Round1/Round2", "lindell22 dlogProve/dlogVerify (Fiat–Shamir Schnorr PoK)", "hashcom Commit/Open (real BLAKE2b over handles)", "schnorrlike.VerifierTrait.Verify", "feldman.Scheme.ConvertShareToAdditive/ConvertLiftedShareToAdditive", "kw/msp ReconstructionCoefficients", "przs.SampleZeroShare", "trusteddealer.Deal", "keygen.NewShard"},
-			Bounds:    map[string]any{"protocol": "Lindell22 with the vanilla (configurable) Schnorr variant, both response signs, Fiat–Shamir compiler, round-by-round API", "dkls23": "DKLs23 threshold ECDSA, bbot variant (RVOLE over ECBBOT), rounds 1–4 of every cosigner for a 2-party quorum of a 2-of-3 structure (thorough: a CNF structure and a 3-party quorum) with all randomness symbolic: nobody aborts (measure-zero validator refusals excluded), all cosigners report the same R, and the partial signatures satisfy (Σw)·k = (m + r_x·x)·(Σu) with k = dlog R, x = dlog PK, r_x the opaque x-coordinate of R as the library converts it, Σu ≠ 0 — the ECDSA equation for s = Σw/Σu, stated without inversion", "structures/quorums": "threshold, unanimity, CNF, hierarchical, non-ideal gate tree; minimal quorums and minimal+1 (≤3 quorums per structure in quick)", "shares, nonces, zero shares": "symbolic mod the real group order", "messages": "2 concrete messages"},
+			Bounds:    map[string]any{"protocol": "Lindell22 with the vanilla (configurable) Schnorr variant, both response signs, Fiat–Shamir compiler, round-by-round API", "dkls23-softspoken": "the SoftSpoken variant (ECBBOT base OTs, SoftSpoken OT extension executed concretely on the bytes derived from interned encodings, RVOLE over it), rounds 1–5, same obligations", "dkls23": "DKLs23 threshold ECDSA, bbot variant (RVOLE over ECBBOT), rounds 1–4 of every cosigner for a 2-party quorum of a 2-of-3 structure (thorough: a CNF structure and a 3-party quorum) with all randomness symbolic: nobody aborts (measure-zero validator refusals excluded), all cosigners report the same R, and the partial signatures satisfy (Σw)·k = (m + r_x·x)·(Σu) with k = dlog R, x = dlog PK, r_x the opaque x-coordinate of R as the library converts it, Σu ≠ 0 — the ECDSA equation for s = Σw/Σu, stated without inversion", "structures/quorums": "threshold, unanimity, CNF, hierarchical, non-ideal gate tree; minimal quorums and minimal+1 (≤3 quorums per structure in quick)", "shares, nonces, zero shares": "symbolic mod the real group order", "messages": "2 concrete messages"},
 			Assumes:   []string{"random-oracle idealisation for transcript/commitment hashes (interned handles)", "fresh random draws are non-zero", "the measure-zero refusals the code itself documents are excluded: effective partial public key = identity (retry abort), aggregated s = 0 or R = identity (shown to be the only way an aggregator can refuse)"},
 			Outside:   []string{"DKLs23 (OT over scalar bytes, x-coordinate of R), Lindell17 (Paillier), Boldyreva BLS (pairing), CGGMP21", "BIP-340 / Mina variants (parity of an affine coordinate)", "networked runner API", "real curves"},
 		}
